@@ -27,15 +27,18 @@ import warnings
 
 from common import CORPUS_DIR, call, err_class
 
-RULE = ("random scenarios built through the public constructors (0..6 axis-parallel lanelets with successor/adjacency links, "
-        "signs, lights with cycles, an intersection; static / dynamic / environment / phantom obstacles with rectangle, circle, "
-        "polygon and shape-group shapes; predictions: none, set-based (time steps and intervals), trajectories of KSState, "
-        "PMState, ExtendedPMState, KSState with uncertain position/orientation, CustomState with (velocity, velocity_y) and no "
-        "orientation, CustomState with orientation, CustomState with neither; 0..2 planning problems with 1..3 goal states and "
-        "a goal-lanelet table that is None, a dict or a collections.defaultdict, complete or with missing keys) x a sequence of "
-        "5..11 read-only operations (occupancy/state/lanelet/traffic-light queries, goal checks, ==, hash, copy, deepcopy, "
-        "pickle, draw+render, XML and protobuf export); a case is one (scenario, sequence); non-trivial = every case "
-        "(>= 5 operations, each followed by snapshot + 2 exports); distinct = distinct canonical JSON")
+RULE = ("random scenarios built through the public constructors (0..6 lanelets in a grid with successor / predecessor / adjacency "
+        "links incl. unsorted double successors, signs, lights with cycles, an intersection; static / dynamic / environment / phantom "
+        "obstacles with rectangle, circle, polygon and shape-group shapes, lanelet registrations; predictions: none, set-based (time "
+        "steps and intervals), trajectories of KSState, PMState, ExtendedPMState, KSState with uncertain position/orientation, "
+        "CustomState with (velocity, velocity_y) and no orientation, with orientation, with neither, with all three; 0..2 planning "
+        "problems with 1..3 goal states and a goal-lanelet table that is None, a dict or a collections.defaultdict, complete or with "
+        "missing keys) x a sequence of 5..12 read-only operations out of 40 kinds (occupancy/state/lanelet/traffic-light queries, "
+        "goal checks on own and foreign states, ==, hash, copy, deepcopy, pickle, network copies, str, draw+render, XML and protobuf "
+        "export); 6 of every 20 cases are directed (merge of lanelets with different obstacle registrations, orientation-less "
+        "trajectory queried, table with missing keys exported, goal check on scenario-owned states); a case is one (scenario, "
+        "sequence); non-trivial = every case (>= 5 operations, each followed by a snapshot and both exports); distinct = distinct "
+        "canonical JSON")
 ASSUMPTIONS = [
     "observable = reachable through public properties / public instance attributes (plus the key set and order of instance "
     "__dict__ of states, which State.attributes exposes); lazily filled private caches (TrajectoryPrediction occupancy cache, "
@@ -412,8 +415,27 @@ def gen_case(ctx, tiny=False, allow_draw=True, recipe=None):
             ops = gen_ops(r, spec, allow_draw=allow_draw)
             ops.insert(r.randint(0, len(ops)), ["write_pb", "full"])
             return {"spec": spec, "ops": ops}
-        return {"spec": spec, "ops": gen_ops(r, spec, allow_draw=allow_draw)}
-    return {"spec": spec, "ops": gen_ops(r, spec, allow_draw=allow_draw)}
+        if recipe == "reach":
+            # a goal that constrains heading or speed, checked against scenario-owned states that carry heading and both
+            # velocity components (GoalRegion._harmonize_state_types rewrites the velocity of such a state on a copy)
+            d = [d for d in spec["dynamic"] if d["pred"] and d["pred"]["kind"] == "traj" and d["pred"]["cls"] == "custom-full"]
+            pr = [p for p in spec["problems"] if any(a[0] in ("velocity", "orientation") for g in p["goals"] for a in g["attrs"])]
+            if not d or not pr:
+                continue
+            ops = gen_ops(r, spec, allow_draw=allow_draw)
+            for _ in range(2):
+                dd = r.choice(d)
+                ops.insert(r.randint(0, len(ops)), ["reached_own", r.choice(pr)["id"], dd["id"], r.choice(["state", "trajectory"]),
+                                                    dd["pred"]["t1"] + r.randint(0, len(dd["pred"]["states"]) - 1)])
+            return {"spec": spec, "ops": ops}
+        break
+    ops = gen_ops(r, spec, allow_draw=allow_draw)
+    if allow_draw and not any(o[0] == "draw" for o in ops):
+        tb = r.choice([0, 0, 1, 2])
+        ops.insert(r.randint(0, len(ops)), ["draw", {"what": r.choice(["scenario", "both"]), "tb": tb, "te": tb + r.choice([1, 3, 6]),
+                                                     "occ": r.random() < 0.5, "traj": r.random() < 0.5, "icon": r.random() < 0.2,
+                                                     "init": r.random() < 0.3, "hist": r.random() < 0.2}])
+    return {"spec": spec, "ops": ops}
 
 
 # ------------------------------------------------------------------------------------------------ builder (public constructors)
@@ -1470,7 +1492,7 @@ def run(ctx):
         run_case(ctx, json.load(open(p)))
     n = ctx.n(110)
     for i in range(n):
-        recipe = {1: "merge", 6: "vvy", 11: "tbl", 16: "merge"}.get(i % 20)
+        recipe = {1: "merge", 6: "vvy", 11: "tbl", 13: "reach", 16: "merge", 18: "reach"}.get(i % 20)
         run_case(ctx, gen_case(ctx, tiny=(i % 4 == 3 and recipe is None), allow_draw=(i % 5 == 0), recipe=recipe))
 
 
